@@ -252,6 +252,7 @@ def merge(results):
             continue
         if r.get('error'):
             agg['problems'].append('shard {} harness error: {}'.format(r['shard'], r['error'][-1500:]))
+        agg.setdefault('walls', []).append((round(r.get('wall', 0), 1), r['shard']))
         s = r['stats']
         for k, v in s['c'].items():
             agg['c'][k] = agg['c'].get(k, 0) + v
@@ -356,6 +357,7 @@ def main(argv=None):
         'shards': nshards,
         'known_findings_reproduced': sorted(active),
         'harness_problems': agg['problems'],
+        'slowest_shards_s': sorted(agg.get('walls', []), reverse=True)[:3],
     }
     if hasattr(mod, 'coverage_extra'):
         coverage.update(mod.coverage_extra(agg))
